@@ -45,7 +45,9 @@ import Bmc.Proofs.EndToEnd.DiscoveryC12
 #print axioms Bmc.Proofs.GenHs.toy_gen_eq
 #print axioms Bmc.Proofs.EndToEnd.hsRun_sound
 #print axioms Bmc.Proofs.EndToEnd.viewAnswers_honest
+#print axioms Bmc.Proofs.EndToEnd.hsRun_incorrect_password
 #print axioms Bmc.Proofs.EndToEnd.generated_newV2Session_sound
+#print axioms Bmc.Proofs.EndToEnd.generated_newV2Session_incorrect_password
 #print axioms Bmc.Proofs.EndToEnd.retrieveLoop_congr
 #print axioms Bmc.Proofs.EndToEnd.determineFull_congr
 #print axioms Bmc.Proofs.EndToEnd.generated_determineCipherSuite_first_preference
